@@ -144,6 +144,20 @@ func c01GenRuleText(r *rng) string {
 		}
 
 		return "/banner"
+	case 8: // non-ASCII text in the shortcut (IDN written in Unicode form; windows that cut a UTF-8 sequence)
+		n := pick(r, mIDNNames)
+		switch r.n(5) {
+		case 0:
+			return "||" + n + "^"
+		case 1:
+			return "||" + n + pick(r, c01Stems)
+		case 2:
+			return pick(r, []string{"/bücher/", "/реклама", "ad_ü_banner", "/ünit", "bannerü"}) + pick(r, []string{"", "$script", "$image"})
+		case 3:
+			return "@@||" + n + "^" + pick(r, []string{"", "$important", "$script"})
+		default:
+			return pick(r, c01Short) + "$domain=" + n
+		}
 	case 6: // regex rules (with and without usable shortcut)
 		return pick(r, []string{"/banner[0-9]+/", "/ad[0-9]+|banner/", `/advert\.js/`, "/^https?:\\/\\/ads\\./", "/x/"})
 	default:
@@ -217,25 +231,42 @@ func c01BuildScenario(r *rng) *c01Scenario {
 			bodies[l] = append(bodies[l], t)
 		}
 	}
+	// "any split into lists": lists that yield NO rule (empty, comments only, rejected lines, ignored cosmetic
+	// rules) between, before and after the lists that do
+	mb := make([]mBody, len(bodies))
+	for i, b := range bodies {
+		mb[i] = mBody{lines: b}
+	}
+	if r.chance(1, 2) {
+		mb = mInsertRuleLess(r, bodies, len(ids))
+	}
 	var lists []filterlist.RuleList
 	var note []string
-	for i, b := range bodies {
-		lists = append(lists, &filterlist.StringRuleList{ID: ids[i], RulesText: strings.Join(b, "\n") + "\n", IgnoreCosmetic: r.chance(1, 2)})
-		note = append(note, fmt.Sprintf("[%d] %s", ids[i], strings.Join(b, " ¶ ")))
+	for i, b := range mb {
+		text := strings.Join(b.lines, "\n") + "\n"
+		if b.lines == nil && r.chance(1, 2) {
+			text = ""
+		}
+		ign := r.chance(1, 2)
+		if b.ign != nil {
+			ign = *b.ign
+		}
+		lists = append(lists, &filterlist.StringRuleList{ID: ids[i], RulesText: text, IgnoreCosmetic: ign})
+		note = append(note, fmt.Sprintf("[%d] %s", ids[i], strings.Join(b.lines, " ¶ ")))
 	}
 	s, err := filterlist.NewRuleStorage(lists)
 	if err != nil {
 		panic(err)
 	}
 	sc := &c01Scenario{storage: s, engine: urlfilter.NewNetworkEngine(s), note: strings.Join(note, " ‖ "), coll: coll}
-	scan := s.NewRuleStorageScanner()
+	// the reference rule set is read list by list (one scanner per list), NOT through the storage scanner the
+	// engine is built from: what the storage scanner skips must show up as a difference
 	var items []string
-	for scan.Scan() {
-		f, idx := scan.Rule()
-		if nr, ok := f.(*rules.NetworkRule); ok {
+	for _, sr := range mScanLists(lists) {
+		if nr, ok := sr.rule.(*rules.NetworkRule); ok {
 			sc.nets = append(sc.nets, nr)
 			sc.texts = append(sc.texts, nr.RuleText)
-			items = append(items, wlist(fmt.Sprint(idx), wnetrule(nr)))
+			items = append(items, wlist(fmt.Sprint(sr.idx), wnetrule(nr)))
 		}
 	}
 	sc.rulesW = wlist(items...)
@@ -256,6 +287,9 @@ func c01URL(r *rng, sc *c01Scenario) string {
 		return s
 	}
 	host := pick(r, poolDomains)
+	if r.chance(1, 10) {
+		host = pick(r, mIDNNames)
+	}
 	switch r.n(8) {
 	case 0: // shortcut is the very end of the URL
 		if r.chance(1, 3) {
@@ -410,7 +444,8 @@ func c01HashGen(r *rng, n int, w *bufio.Writer) {
 		var s string
 		switch r.n(4) {
 		case 0:
-			s = pick(r, []string{"", "a", "ab", "/banner", "example.org", "\x00\xff\x80"})
+			s = pick(r, []string{"", "a", "ab", "/banner", "example.org", "\x00\xff\x80", "bücher.example", "ü", "büche", "\xbccher", "пример.рф", "日本語.jp",
+				"http://bücher.example/реклама?ü=1", "\u0130", "a\u212a", "\U0001F600.example"})
 		case 1:
 			b := make([]byte, r.n(40))
 			for i := range b {
